@@ -395,7 +395,7 @@ CONDITIONS = [
                                          ["o1 == 0 and o2 == 1 and k1 == 1 and %s and d <= 6" % r for r in ("16 < p1 <= 32", "32 < p1 <= 48")],
                                 "thorough": ["o1 == %d and o2 == %d and %s" % (a, b, r) for a in (0, 6) for b in (0, 1, 3, 6, 7) for r in ("k1 == 0 and p1 <= 20", "k1 == 0 and 20 < p1 <= 34", "k1 == 0 and 34 < p1 <= 48", "k1 == 0 and p1 > 48")] +
                                             ["o1 == %d and o2 == %d and k1 == 1 and %s" % (a, b, r) for a in (0, 6) for b in (0, 1, 6) for r in ("p1 <= 24", "24 < p1 <= 44", "p1 > 44")]},
-         twins=["reach"], timeout={"quick": 240, "thorough": 900},
+         twins=["reach"], timeout={"quick": 420, "thorough": 900},
          bounds="two operations (quick: UPDATE,UPDATE and UPDATE,register) with two pre-emptions: to worker 1 at a symbolic step (quick <= 48, thorough <= 70) and back to the driver 1-10 (thorough 1-14) steps later; at the next forced switch worker 1 or (k1 = 1: UPDATE,UPDATE, pre-emption at 17..48, back within 6 steps; more in thorough) worker 2 continues"),
     dict(fn="converge", cubes={"quick": ["n == 2 and o1 == %d and o2 %s and t1 == %d and k1 == 0 and k2 == 0" % (a, b, t) for a in (0, 3, 4, 5, 6, 7, 8) for b in ("<= 3", ">= 4") for t in (1,)] +
                                         ["n == 3 and o1 == %d and o2 == %d and o3 == %d and t1 == 1 and k1 == 0 and k2 == 0" % h3 for h3 in ((0, 1, 2), (0, 1, 6), (6, 0, 1), (6, 0, 7), (0, 4, 1), (0, 5, 1), (0, 8, 3), (8, 6, 0))],
@@ -403,7 +403,7 @@ CONDITIONS = [
                                            ["n == 2 and o1 == %d and t1 == %d and k1 == 0 and k2 == 0" % (a, t) for a in range(9) for t in (0, 2)]},
          twins=["reach", "mutant:hash_not_stored@n == 2 and o1 == 0 and o2 <= 3 and t1 == 1 and k1 == 0 and k2 == 0", "mutant:no_change_clears@n == 2 and o1 == 0 and o2 <= 3 and t1 == 1 and k1 == 0 and k2 == 0",
                 "mutant:captured_config@n == 2 and o1 == 0 and o2 == 2 and t1 == 1 and k1 == 0 and k2 == 0"],
-         timeout={"quick": 240, "thorough": 900},
+         timeout={"quick": 420, "thorough": 900},
          bounds="quick: the histories of 2 operations whose first is UPDATE(A) / NO_CHANGE / failing poll / unintelligible / unconvertible UPDATE / register / unregister, and 8 histories of 3 (several updates / registrations in flight) over 9 operation kinds, pre-emption to worker 1; thorough: the histories of 3 that start with UPDATE / register / an unconvertible UPDATE (pre-emption to worker 1) and of 2 (pre-emption to the driver / worker 2); one pre-emption at a SYMBOLIC step "
                 "index (0..100); forced switches by picks"),
 ]
